@@ -4,7 +4,7 @@ import json
 from hypothesis import strategies as st
 
 from core.outcome import Outcome, discard, observe
-from gen.objects import CARVERS, PIPELINES, STEPS, fit_object, fitted_case, make_object, object_dropna
+from gen.objects import CARVERS, EDIT_STRATEGY, PIPELINES, STEPS, apply_edits, fit_object, fitted_case, make_object, object_dropna
 from gen.samples import build, summarize
 from oracles.mapping import content_of, is_missing, is_num, ref_group, groups_containing, values_equal, eq
 from oracles.views import feature_views, canonical_str
@@ -13,7 +13,8 @@ PID = "C04"
 RULE = (
     "Table-first samples (12-400 rows, 1-3 features of every kind incl. boundaries differing beyond 4 "
     "significant digits and numeric-valued categories) x every discretizer/carver class x "
-    "output_dtype x dropna, plus the object rebuilt from JSON. Oracle: reference mapping computed from "
+    "output_dtype x dropna, plus the object rebuilt from JSON, a third of the objects edited by hand "
+    "(update_discretizer: group / replace / missing values / new category) before transforming. Oracle: reference mapping computed from "
     "values_orders (list + content) only; every training value has exactly one group, labels are a "
     "function of the group and injective, float labels = rank, str labels of qualitative features = "
     "leader, missing rows per dropna; string-form probe of numeric categories. Non-trivial: a kept "
@@ -31,7 +32,10 @@ CLASSES = CARVERS + PIPELINES + STEPS + ("BinaryCarver", "ContinuousCarver", "Di
 
 
 def strategy(tier):
-    return st.tuples(fitted_case(CLASSES), st.booleans()).map(lambda t: dict(t[0], via_json=t[1]))
+    # a third of the objects are edited by hand (update_discretizer) before they transform: the mapping is the one
+    # described by the values_orders the object holds at that moment
+    edits = st.one_of(st.just([]), st.just([]), EDIT_STRATEGY)
+    return st.tuples(fitted_case(CLASSES), st.booleans(), edits).map(lambda t: dict(t[0], via_json=t[1], edits=t[2]))
 
 
 def check_mapping(out: Outcome, obj, case, sample, frame, result, tag="", labelled_nan=()):
@@ -144,6 +148,12 @@ def check_case(case) -> Outcome:
         return discard(f"fit-raised:{res.exc_type}", out.labels)
     target = obj
     tag = ""
+    labelled_nan = set()
+    if case.get("edits") and cfg["cls"] != "MulticlassCarver":
+        ok, labelled_nan, edit_labels = apply_edits(obj, case, case["edits"])
+        if not ok:
+            return discard("edit-raised", out.labels)  # edits themselves are C17's subject
+        out.label(*edit_labels)
     if case.get("via_json"):
         from AutoCarver.discretizers import load_discretizer
 
@@ -164,7 +174,7 @@ def check_case(case) -> Outcome:
     if not result.ok:
         out.violate(f"{tag}transform-of-training-data-raised:{result.bucket()}", f"transform(X_train) raised {result.exc!r}")
         return out
-    out.nontrivial = check_mapping(out, target, case, sample, sample.X, result.value, tag)
+    out.nontrivial = check_mapping(out, target, case, sample, sample.X, result.value, tag, labelled_nan)
 
     # string-form probe: numeric categories are matched through their string form
     probe = sample.X.copy()
